@@ -1241,8 +1241,9 @@ def calc_shannon_sum_capacity(sinrs: NumberOrArrayUnion) -> float:
 
     Parameters
     ----------
-    sinrs : float | np.ndarray
-        SINR values (in linear scale).
+    sinrs : float | np.ndarray | list
+        SINR values (in linear scale): a number, an array of any dimension,
+        a (nested) list or tuple, or a sequence with one array per user.
 
     Returns
     -------
@@ -1259,7 +1260,22 @@ def calc_shannon_sum_capacity(sinrs: NumberOrArrayUnion) -> float:
     >>> print(calc_shannon_sum_capacity(sinrs_linear))
     8.045049740837989
     """
-    sum_capacity = np.sum(np.log2(1 + sinrs))
+    # All the SINR values as one double precision array, whatever container
+    # they come in: a number, an array of any dimension, a (nested) list or
+    # tuple, or one array per user with possibly different numbers of
+    # streams (what the `calc_SINR` methods return).
+    try:
+        values = np.asarray(sinrs)
+    except ValueError:
+        # Rows of different lengths
+        values = None
+    if values is None or values.dtype == object:
+        rows = [np.ravel(np.asarray(row, dtype=float)) for row in sinrs]
+        values = np.hstack(rows) if rows else np.zeros(0)
+    values = np.asarray(values, dtype=float)
+
+    # The sum capacity is a single number: the sum runs over all the values
+    sum_capacity = np.sum(np.log2(1 + values))
 
     return cast(float, sum_capacity)
 
